@@ -67,15 +67,15 @@ func raceSignature(all []raceEvent) string {
 }
 
 type raceResult struct {
-	CacheHits    int
-	Queries      int
-	Conflicts    int // conflicting pairs examined (all must be ordered)
-	OrderedBySW  int // conflicting pairs ordered only through a sync.Once edge
-	Races        []string
-	RacePairs    int
-	Threads      int
-	Events       int
-	UnknownSync  []string
+	CacheHits   int
+	Queries     int
+	Conflicts   int // conflicting pairs examined (all must be ordered)
+	OrderedBySW int // conflicting pairs ordered only through a sync.Once edge
+	Races       []string
+	RacePairs   int
+	Threads     int
+	Events      int
+	UnknownSync []string
 }
 
 func pathsOverlap(a, b string) bool {
